@@ -40,28 +40,6 @@ def tlaset(xs):
     return "{" + ",".join(str(x) for x in xs) + "}"
 
 
-def mc_object(res, binary, base, fields, nest_at, nest_fields, glob, steps, nobj, invariants, label, tags=None, max_lines=None):
-    """Exhaustive PbObject histories over a sub-view of `base`, tour replayed on every flavour of the family."""
-    schema = export_schema(binary)
-    tour = os.path.join(scratch(), "obj-%s.tour" % label)
-    c = cfg({"Type": '"%s"' % base, "Fields": tlaset(fields), "NestAt": nest_at, "NestFields": tlaset(nest_fields),
-             "Global": tlaset('"%s"' % g for g in glob), "MaxSteps": steps, "NObj": nobj},
-            invariants=invariants, emit="Emit", view="View")
-    r = tlc("MC_PbObject", c, emit_to=tour, env={"SCHEMA": schema}, timeout=3000)
-    res.add_tlc(r, "%s: fields %s nest %s/%s ops %s depth %d objs %d" % (label, fields, nest_at, nest_fields, sorted(glob), steps, nobj))
-    lines = list(read_ndjson(tour))
-    for (tname, dyn) in flavors(base):
-        fp = tour + "." + tname.split(".")[0] + ("-dyn" if dyn else "")
-        with open(fp, "w") as fh:
-            for l in lines:
-                l = dict(l, type=tname, dyn=dyn)
-                fh.write(json.dumps(l) + "\n")
-        replay_tour(res, binary, "hist", fp,
-                    key=lambda e: [e["type"], e["dyn"], e["steps"][-1]["op"], e["steps"][-1].get("f", 0), len(e["steps"])])
-        os.remove(fp)
-    return r
-
-
 def drive_hist(res, binary, seed, n, types=None, shards=None, label="hist"):
     """Seeded random histories on the real code (all corpus types and flavours), validated by Trace_PbObject."""
     schema = export_schema(binary, tuple(types or ()))
@@ -105,17 +83,24 @@ def drive_hist(res, binary, seed, n, types=None, shards=None, label="hist"):
 ALL_LAWS = ["AllWellFormed", "RoundTripLaw", "EqLaws", "MergeIsConcat", "MergeOptionLaw", "DetInjective", "DiscardLaw", "InitLaw"]
 
 
-def mc(res, binary, label, base, fields, glob, steps, nobj=2, nest_at=0, nest_fields=(), laws=ALL_LAWS, bad_utf8=False):
+def mc(res, binary, label, base, fields, glob, steps, nobj=2, nest_at=0, nest_fields=(), laws=ALL_LAWS, bad_utf8=False,
+       wire_recs=(), max_recs=0, flavs=None):
     schema = export_schema(binary, (base,))
     tour = os.path.join(scratch(), "obj-%s.tour" % label)
     c = cfg({"Type": '"%s"' % base, "Fields": tlaset(fields), "NestAt": nest_at, "NestFields": tlaset(nest_fields),
-             "Global": tlaset('"%s"' % g for g in glob), "MaxSteps": steps, "NObj": nobj, "BadUtf8": "TRUE" if bad_utf8 else "FALSE"},
-            invariants=laws, emit="Emit", view="View")
-    r = tlc("MC_PbObject", c, emit_to=tour, env={"SCHEMA": schema}, timeout=3000)
+             "Global": tlaset('"%s"' % g for g in glob), "MaxSteps": steps, "NObj": nobj, "BadUtf8": "TRUE" if bad_utf8 else "FALSE",
+             "MaxRecs": max_recs},
+            invariants=laws, emit="Emit", view="View") + "CONSTANT WireRecs <- WireRecsDef\n"
+    # tuples cannot be written in a cfg file: the record alphabet goes into a generated wrapper module
+    modname = "MC_PbObject_" + "".join(ch if ch.isalnum() else "_" for ch in label)
+    with open(os.path.join(vlib.spec_dir(), modname + ".tla"), "w") as fh:
+        fh.write("---- MODULE %s ----\nEXTENDS MC_PbObject\nWireRecsDef == %s\n====\n" % (
+            modname, tlaset("<<" + ",".join(str(x) for x in r) + ">>" for r in wire_recs)))
+    r = tlc(modname, c, emit_to=tour, env={"SCHEMA": schema}, timeout=3000)
     res.add_tlc(r, "%s: %s fields %s nest %s/%s ops %s depth %d objs %d laws %s" % (
         label, base, list(fields), nest_at, list(nest_fields), sorted(glob), steps, nobj, laws))
     lines = list(read_ndjson(tour))
-    for (tname, dyn) in flavors(base):
+    for (tname, dyn) in (flavs or flavors(base)):
         fp = tour + "." + tname.split(".")[0] + ("-dyn" if dyn else "")
         with open(fp, "w") as fh:
             for l in lines:
@@ -261,6 +246,30 @@ def c16(res, tier, seed):
     finish(res, b, seed, tier, "mut=10,size=5,marshal=5,rt=3,equal=1,clone=1")
 
 
+LAZY_BASE = "opaque.lazy_tree.Node"
+LAZY_FLAVS = [(LAZY_BASE, False), (LAZY_BASE, True), ("hybrid.lazy_tree.Node", False), ("lazy_tree.Node", False)]
+# wire records for lazy_tree.Node: field 99 (lazy nested Node) valid empty / valid with content / wrong wire type (varint) /
+# non-minimal length / ill-formed inside; field 1 (eager int32); an unknown field
+LAZY_RECS = [[154, 6, 0], [154, 6, 2, 8, 1], [152, 6, 5], [154, 6, 130, 0, 8, 1], [154, 6, 1, 255], [8, 1], [160, 31, 1]]
+LAZY_TYPES = ["opaque.lazy_tree.Node", "hybrid.lazy_tree.Node", "lazy_tree.Node", "opaque.lazy_tree.Node:dyn",
+              "opaque.goproto.proto.testeditions.TestRequiredLazy", "goproto.proto.testeditions.TestRequiredLazy",
+              "opaque.goproto.proto.testeditions.TestAllTypes", "hybrid.goproto.proto.testeditions.TestAllTypes",
+              "opaque.goproto.proto.test3.TestAllTypes"]
+MODULE_OF["C17"] = "hist"
+HARNESS_PKGS["C17"] = PKG
+
+
+@check("C17")
+def c17(res, tier, seed):
+    b = build_harness(PKG)
+    # every input of up to 2 (quick) / 3 (thorough) records, decoded lazily and eagerly (nolazy both ways), followed by accesses:
+    # re-marshal (default and deterministic) into another object, size, clone, equal, merge, checkinit
+    mc(res, b, "lazy-node", LAZY_BASE, [1, 99], ["uwire", "rt", "size", "clone", "equal", "checkinit"], D(tier, 2, 3),
+       nest_at=99, nest_fields=[1], wire_recs=LAZY_RECS, max_recs=D(tier, 2, 3), flavs=LAZY_FLAVS, laws=["AllWellFormed", "RoundTripLaw"])
+    finish(res, b, seed, tier, "mut=6,unmarshal=8,rt=4,marshal=3,size=2,equal=2,clone=2,checkinit=2,merge=2,umerge=1", types=LAZY_TYPES)
+    res.notes.append("lazy and eager decoding are bound to the SAME specification (nolazy is not a parameter of PbObject), so agreement of both with it is their observational equivalence")
+
+
 @check("C28")
 def c28(res, tier, seed):
     b = build_harness(PKG)
@@ -273,7 +282,7 @@ def c28(res, tier, seed):
 @check("C30")
 def c30(res, tier, seed):
     b = build_harness(PKG)
-    mc(res, b, "eq-te", BASE_TE, [11, 12, 15, 18, 31, 69], ["equal", "clone", "rt", "setu"], D(tier, 2, 3), nobj=3, nest_at=18, nest_fields=[1])
+    mc(res, b, "eq-te", BASE_TE, [11, 12, 135, 15, 18, 31, 69], ["equal", "clone", "rt", "setu"], D(tier, 2, 3), nobj=3, nest_at=18, nest_fields=[1])
     mc2(tier, res, b, "eq-t3", BASE_T3, [91, 92, 95, 98], ["equal", "clone", "rt"], 2, nobj=3, nest_at=98, nest_fields=[1])
     finish(res, b, seed, tier, "mut=10,equal=6,clone=3,rt=3,unmarshal=1")
     res.notes.append("agreement with protoreflect.Value.Equal and protocmp.Transform: see evidence key equal_variants (harness cross-check in every equal step)")
